@@ -15,6 +15,7 @@ from hypothesis import strategies as st
 from .. import gen
 from ..engine import Hooks, describe_ops, exc_key, op_kind, run_case
 from ..runner import V
+from ..engine import is_engine_exception as _is_engine_exception
 
 from pokerkit import Mode
 
@@ -63,6 +64,8 @@ class M(Hooks):
                 self.prev_boards = [list(s.get_board_cards(j))
                                     for j in s.board_indices]
             except Exception as e:  # noqa: BLE001
+                if not _is_engine_exception(e):
+                    raise     # harness fault: exit 2
                 self.v('board_accessor_raised', '', repr(e))
             self.prev_live = list(s.statuses)
             self.prev_street = s.street_index
